@@ -10,7 +10,7 @@
    order [rev new]. *)
 From Coq Require Import List NArith Bool Arith.
 From AMV Require Import Base.ListSet Model.Schema Model.Resolver Model.Machine
-  Spec.C01 Spec.C05 Spec.C07 Spec.C05b Spec.C05d.
+  Spec.C01 Spec.C05 Spec.C07 Spec.C05b Spec.C05d Spec.C05e.
 From AMV Require Proofs.C05C07Proofs.
 Import ListNotations.
 
@@ -403,3 +403,69 @@ Theorem detach_snapshot_semantics_nonvacuous :
   = ([(0, 0); (1, 0); (0, 2); (1, 2); (0, 3); (1, 3)], false, true).
 Proof. exact C05C07Proofs.detach_snapshot_semantics_nonvacuous. Qed.
 Print Assumptions detach_snapshot_semantics_nonvacuous.
+
+(* ------------------------------------------------------------------ *)
+(* Spec/C05e.v (code 550): final handlers judged on the clocks         *)
+(* [parity s]: one tick per schema state, a state is active iff its    *)
+(* tick is odd (an invariant of the runs: Props/C07.v parity_step)     *)
+(* ------------------------------------------------------------------ *)
+
+(* which ticks one run_tx moves: TimeAfter is the machine's time, only an
+   applied transition moves ticks, a moved state that ends active is an
+   expected enter (entered, or a called Multi state re-entered), one that ends
+   inactive is an expected exit *)
+Theorem moved_step_facts : forall s mu s' r rec,
+  C05C07Proofs.good s -> NoDup (active s) -> C05C07Proofs.parity s ->
+  run_tx s mu = (s', r) -> txs s' = rec :: txs s ->
+  tx_mach_after rec = tx_after rec /\
+  forall x, In x (moved_states rec) ->
+    tx_accepted rec && negb (tx_check rec) = true /\
+    (N.odd (nth x (tx_mach_after rec) 0%N) = true -> In x (expected_enters (sc s) rec)) /\
+    (N.odd (nth x (tx_mach_after rec) 0%N) = false -> In x (expected_exits rec)).
+Proof. exact C05C07Proofs.moved_step_facts. Qed.
+Print Assumptions moved_step_facts.
+
+(* the exact tick steps of setActiveStates *)
+Theorem set_active_clock_value : forall scm cl prev called target x,
+  NoDup prev -> NoDup target -> x < length cl ->
+  nth x (set_active_clock scm cl prev called target) 0%N
+  = (nth x cl 0
+     + (if mem x target
+        then (if negb (mem x prev) then 1
+              else if mem x called && s_multi (sget scm x) then 2 else 0)
+        else 0)
+     + (if mem x prev && negb (mem x target) then 1 else 0))%N.
+Proof. exact C05C07Proofs.set_active_clock_value. Qed.
+Print Assumptions set_active_clock_value.
+
+Theorem moved_codes_step : forall s mu s' r rec,
+  C05C07Proofs.good s -> NoDup (active s) -> C05C07Proofs.parity s ->
+  run_tx s mu = (s', r) -> txs s' = rec :: txs s ->
+  moved_codes (bindings s) (rev (hlog s')) rec = [].
+Proof. exact C05C07Proofs.moved_codes_step. Qed.
+Print Assumptions moved_codes_step.
+
+(* on whole runs: any fuel, crashed or not *)
+Theorem c05e_codes_run : forall sch tp hl ex bs ql acts cs fuel,
+  C05C07Proofs.fault_free acts ->
+  c05e_codes bs (run fuel (init_st sch tp hl ex bs ql acts) cs) = [].
+Proof. exact C05C07Proofs.c05e_codes_run_lemma. Qed.
+Print Assumptions c05e_codes_run.
+
+Theorem c05e_codes_run_nonvacuous :
+  let sch := [C05C07Proofs.wx_mk false false [] []; C05C07Proofs.wx_mk false false [] [0];
+              C05C07Proofs.wx_mk false true [] []; C05C07Proofs.wx_mk false true [] []] in
+  let bs := [[HState 2; HEnd 0; HState 1; HState 0; HEnd 2]; [HState 2; HEnd 0]] in
+  let tr := run 100 (init_st sch [] [] 3 bs 1000 [])
+                [C05C07Proofs.ex_add [0; 2]; C05C07Proofs.ex_add [2; 1]; C05C07Proofs.ex_add [1]] in
+  tr_fuel_ok tr = true /\
+  map (fun t => (tx_before t, tx_mach_after t, moved_states t)) (tr_txs tr)
+    = [([0; 0; 0; 0]%N, [1; 0; 1; 0]%N, [0; 2]);
+       ([1; 0; 1; 0]%N, [2; 1; 3; 0]%N, [0; 1; 2]);
+       ([2; 1; 3; 0]%N, [2; 1; 3; 0]%N, [])] /\
+  map (fun h => (hl_key h, hl_binding h)) (tr_hlog tr)
+    = [(HState 0, 0); (HState 2, 0); (HState 2, 1); (HEnd 0, 0); (HEnd 0, 1);
+       (HState 2, 0); (HState 2, 1); (HState 1, 0)] /\
+  c05e_codes bs tr = [].
+Proof. exact C05C07Proofs.c05e_codes_run_nonvacuous. Qed.
+Print Assumptions c05e_codes_run_nonvacuous.
